@@ -381,15 +381,21 @@ def _while_idiom(ctx, fi, cfg, req, loop):
 
 def _for_idiom(ctx, fi, cfg, req, loop):
     N = Normalizer()
-    ctx.need(isinstance(loop.target, ast.Name) and isinstance(loop.iter, ast.Call) and chain(loop.iter.func) == "range" and len(loop.iter.args) == 3 and not loop.iter.keywords,
-             "prefix search: the for loop is not `for i in range(start, stop, step)` (accepted idioms: `while p:` slicing loop, `for i in range(len(p)-1, 0, -1)`)")
+    ctx.need(isinstance(loop.target, ast.Name) and isinstance(loop.iter, ast.Call) and chain(loop.iter.func) == "range" and 1 <= len(loop.iter.args) <= 3 and not loop.iter.keywords,
+             "prefix search: the for loop is not `for i in range(...)` (accepted idioms: `while p:` slicing loop, `for i in range(len(p)-1, 0, -1)`)")
     i = loop.target.id
     ctx.need(not [w for w in writes_to_name(fi.node, i) if w is not loop], "prefix search: the loop index is re-bound")
     hn = cfg.loc1(loop)
-    start, stop, step = loop.iter.args
+    # range(stop) / range(start, stop) are ascending ranges: interpreted (and refuted below) rather than refused
+    ra = list(loop.iter.args)
+    if len(ra) == 1:
+        ra = [ast.Constant(value=0), ra[0], ast.Constant(value=1)]
+    elif len(ra) == 2:
+        ra = [ra[0], ra[1], ast.Constant(value=1)]
+    start, stop, step = ra
     # which sequence is measured
-    lens = [n for n in ast.walk(start) if isinstance(n, ast.Call) and chain(n.func) == "len" and len(n.args) == 1]
-    ctx.need(len(lens) == 1, "prefix search: range start does not mention exactly one len(..)")
+    lens = [n for a_ in (start, stop) for n in ast.walk(a_) if isinstance(n, ast.Call) and chain(n.func) == "len" and len(n.args) == 1]
+    ctx.need(len(lens) == 1, "prefix search: the range bounds do not mention exactly one len(..)")
     base = lens[0].args[0]
     ctx.need(_is_rp(fi, req, base, hn), "prefix search: the range is not over the request path")
     try:
@@ -756,6 +762,14 @@ def e(ctx):
 def f(ctx):
     fi = ctx.prog.func(SITE + "get_resources_as_linkheader")
     cfg = cfg_of(fi)
+    # the listing is computed afresh from the two tables on every call: it must not read or keep any other
+    # per-site state (a cached listing cannot notice changes made in a nested site)
+    other_state = sorted({n.attr for n in ast.walk(fi.node) if isinstance(n, ast.Attribute) and isinstance(n.value, ast.Name) and n.value.id == "self" and n.attr not in TABLES and n.attr.startswith("_") and not n.attr.startswith("__")})
+    first = next((n for n in ast.walk(fi.node) if isinstance(n, ast.Attribute) and isinstance(n.value, ast.Name) and n.value.id == "self" and n.attr in other_state), None)
+    ctx.ob("the listing depends on no per-site state other than the two tables (nothing cached between calls)", not other_state, fi, first if first is not None else fi.node,
+           construct="get_resources_as_linkheader state: %s" % (", ".join(other_state) or "tables only"))
+    if other_state:
+        return
     loops = [n for n in walk_no_nested(fi.node) if isinstance(n, (ast.For, ast.AsyncFor))]
     top = [l for l in loops if not any(o is not l and contains(o, l) for o in loops)]
     by_table = {}
@@ -1058,3 +1072,6 @@ R.seed("C17.g", F_R, "                    return x == v\n", "                   
 R.seed("C17.g", F_R, "            if k in (\"rt\", \"if\", \"ct\"):", "            if k in (\"rt\", \"if\"):", "ct no longer token-wise")
 R.seed("C17.g", F_R, "            except ValueError:\n                continue  # no =, not a relevant filter", "            except ValueError:\n                k, v = q, \"\"", "item without '=' becomes a filter")
 R.seed("C17.g", F_R, "                filters.append(lambda link: matchexp(getattr(link, k)))", "                filters.append(lambda link: any(matchexp(c) for c in getattr(link, k)))", "href matched per character")
+
+
+R.seed("C17.f", "aiocoap/resource.py", "    def get_resources_as_linkheader(self):\n        links = []\n", "    def get_resources_as_linkheader(self):\n        if getattr(self, \"_links_cache\", None) is not None:\n            return LinkFormat(list(self._links_cache))\n        links = []\n", "cached listing: changes in nested sites are not seen")
